@@ -22,7 +22,7 @@ VERIF = os.path.dirname(os.path.dirname(os.path.abspath(__file__)))
 REPO = "/repo"
 SEEDED = os.path.join(VERIF, "seeded")
 PY = "/venv/bin/python"
-BASE_FAIL = 6  # 5 socket tests + inverseDynamicsEMR (D19) fail at the current HEAD until D19 is repaired
+BASE_FAIL = 5
 
 
 def sh(cmd, **kw):
